@@ -453,7 +453,11 @@ class Context:
                 n = args[0]
                 if isinstance(n, float) and math.isnan(n):
                     raise JSRangeError("Invalid array length")
-                arr = JSArray(_alloc_length(n, "array", integral=True))
+                length = _alloc_length(n, "array", integral=True)
+                if length > 2**24:
+                    # Arrays are dense: every slot would be allocated
+                    raise JSRangeError("Invalid array length")
+                arr = JSArray(length)
             else:
                 arr = JSArray()
                 for arg in args:
